@@ -36,7 +36,9 @@ POOL = [
     ("zw", "re", r"\w+"), ("zaz", "re", "[a-z]+"), ("aw", "re", r"\w+"), ("zabcd", "str", "abcd"), ("aaab", "str", "aab"),
 ]
 TEXTS = ["a", "ab", "abc", "abcd", "aab", "aa", "b", "ba", "abab", "A", "AB", "Ab", "aB", "for", "fork", "fo",
-         "for1", "fora", "f", "c", "1", "a1", "ab1", "", " a", "a b", "abc1"]
+         "for1", "fora", "f", "c", "1", "a1", "ab1", "", " a", "a b", "abc1", "FOR", "For", "FORK", "For1", "ABCD",
+         # after a blank: the only place where a keyword (whole word) can match behind the selector digit
+         " for", " FOR", " fork", " ab", " AB", " abcd", " fo r", " for1"]
 SELECTORS = ["1", "2", "3"]
 
 
